@@ -62,6 +62,7 @@ class SimBus:
         self.mode = mode
         self.rng = random.Random(seed)
         self.max_delay = max_delay
+        self.min_delay = 0.0           # threaded mode: every delivery takes at least this long (a slow peer / gateway)
         self.lock = threading.RLock()
         self.stations = []
         self.log = collections.deque(maxlen=log_limit)
@@ -218,6 +219,8 @@ class _StationBase:
                 return
             self._busy = True
             try:
+                if bus.min_delay:
+                    time.sleep(bus.min_delay)
                 if bus.max_delay:
                     d = rng.random()
                     if d < 0.5:
